@@ -114,6 +114,13 @@ theorem reading_has_buffer_space (cfg : CCfg) (hl : 2 ≤ cfg.p.limit) (hb : cfg
     (h : (run cfg evs).fate = .reading) : (run cfg evs).inBuf.length < cfg.bufMax :=
   Nat.lt_of_lt_of_le ((run_inv cfg hl evs).below h) hb
 
+/-- the connection model runs C21's parser: after any sequence of non-empty reads that fits client_request_buffer_max_size the parser
+object of the connection is exactly `Http1.feedAll` of the C21 model (so C21's segmentation-independence theorems hold of connections) -/
+theorem connection_runs_c21_parser (cfg : CCfg) (hl : 2 ≤ cfg.p.limit) (segs : List Bytes) (hne : ∀ s ∈ segs, s ≠ [])
+    (hfit : segs.flatten.length ≤ cfg.bufMax) :
+    (run cfg (segs.map .data)).st = (Http1.feedAll cfg.p segs).st :=
+  run_data_is_feedAll cfg hl segs hne hfit
+
 /-! ### non-vacuity: the outcomes are all reachable -/
 
 def cfgR : CCfg := { p := { relaxed := true, limit := 64 }, bufMax := 128, halfClosed := false }
